@@ -55,6 +55,8 @@ func main() {
 		replay(os.Args[2:])
 	case "selftest":
 		selftest(os.Args[2:])
+	case "c07":
+		c07cmd(os.Args[2:])
 	case "list":
 		for _, sc := range vexp.ByProp(os.Args[2]) {
 			fmt.Println(sc.Name)
